@@ -54,5 +54,6 @@ def buildOld : Prog → BState → Option BState
       let B5 ← popScopeOld B4 B.sigs.length
       buildOld k B5
   | .istmt _ _, _ => none
+  | .enif _ _ _, _ => none
 
 end Gatery.C05
